@@ -22,14 +22,14 @@ const (
 )
 
 type Params struct {
-	PowLimitBits uint32
-	GenesisHash  Hash
-	GenesisTime  uint32
-	BIP34, BIP65, BIP66 uint32 // activation heights (version gates, BIP34 coinbase height)
+	PowLimitBits         uint32
+	GenesisHash          Hash
+	GenesisTime          uint32
+	BIP34, BIP65, BIP66  uint32 // activation heights (version gates, BIP34 coinbase height)
 	CSV, Segwit, Taproot uint32 // 0 = never
-	MinDiffBlocks bool // testnet 20-minute rule
-	BIP94         bool // testnet4 retarget rule
-	BIP16Time     uint32
+	MinDiffBlocks        bool   // testnet 20-minute rule
+	BIP94                bool   // testnet4 retarget rule
+	BIP16Time            uint32
 }
 
 func (p *Params) PowLimit() *big.Int { t, _, _ := DecodeCompact(p.PowLimitBits); return t }
@@ -103,16 +103,16 @@ type Coin struct {
 }
 
 type Node struct {
-	Hash    Hash
-	Parent  *Node
-	Height  uint32
-	Time    uint32
-	Bits    uint32
-	Version uint32
-	Work    *big.Int // cumulative
-	Block   *Block   // nil for genesis
-	Seen    int      // delivery sequence number
-	Invalid bool     // found invalid when connecting (or descends from such)
+	Hash          Hash
+	Parent        *Node
+	Height        uint32
+	Time          uint32
+	Bits          uint32
+	Version       uint32
+	Work          *big.Int // cumulative
+	Block         *Block   // nil for genesis
+	Seen          int      // delivery sequence number
+	Invalid       bool     // found invalid when connecting (or descends from such)
 	InvalidReason string
 }
 
